@@ -49,6 +49,31 @@ def call(ev, mods, aliases, extra, acc, case, alias_obj=None):
     kw = dict(extra)
     if aliases is not None:
         kw["aliases"] = dict(aliases)
+        if alias_obj is None:
+            # the alias map in whatever Mapping the caller keeps it: a defaultdict that was filled with +=, an OrderedDict,
+            # a read-only view, a ChainMap of project-wide and local aliases
+            import collections
+            import types
+
+            k = (len(aliases) * 7 + len(mods) * 3 + len(extra)) % 9
+            if k == 1:
+                kw["aliases"] = collections.defaultdict(str, aliases)
+            elif k == 2:
+                kw["aliases"] = collections.OrderedDict(aliases)
+            elif k == 3:
+                kw["aliases"] = types.MappingProxyType(dict(aliases))
+            elif k == 4:
+                items = list(aliases.items())
+                kw["aliases"] = collections.ChainMap(dict(items[: len(items) // 2]), dict(items[len(items) // 2 :]))
+            elif k in (5, 6) and aliases:
+                # keys that are members of a str-mixin Enum / instances of a str subclass
+                from ..drive import typed_names
+
+                keys = list(aliases)
+                kw["aliases"] = dict(zip(typed_names(keys, "enum" if k == 5 else "strsub"), [aliases[x] for x in keys]))
+                acc.count("alias_maps_keyed_by_enum_members_or_str_subclass_instances")
+            if k in (1, 2, 3, 4):
+                acc.count("alias_maps_that_are_not_plain_dicts")
         if alias_obj is not None:
             alias_obj.update(aliases)  # the user only (re)writes their own keys in their own dict
             kw["aliases"] = alias_obj
@@ -179,7 +204,7 @@ def floors(acc, tier):
     why = []
     if acc.counters["draw_backend_calls"] == 0:
         why.append("the drawing backend was never intercepted")
-    for c, n in (("c17_judged", 1000), ("c17_unknown_alias_cases", 20), ("c17_spacing_cases", 100), ("c17_prefix_sibling_alias_cases", 50), ("c17_passthrough_kwargs", 100), ("repeated_calls_same_architecture", 50), ("variant_architectures", 50), ("reused_alias_dict_sequences", 50), ("empty_string_aliases", 30), ("identity_aliases", 30), ("c17_calls_with_reused_alias_object", 100)):
+    for c, n in (("c17_judged", 1000), ("c17_unknown_alias_cases", 20), ("c17_spacing_cases", 100), ("c17_prefix_sibling_alias_cases", 50), ("c17_passthrough_kwargs", 100), ("repeated_calls_same_architecture", 50), ("variant_architectures", 50), ("reused_alias_dict_sequences", 50), ("empty_string_aliases", 30), ("identity_aliases", 30), ("c17_calls_with_reused_alias_object", 100), ("alias_maps_that_are_not_plain_dicts", 200)):
         if acc.counters[c] < n:
             why.append(f"{c}: only {acc.counters[c]}")
     acc.flags["exhaustive"] = bool(acc.flags.get("exhaustive_alias_subsets"))
